@@ -445,7 +445,7 @@ def _is_open_paren_after_assignment(self, oToi):
 
 def _comment_between_first_and_last(lTokens):
     for oToken in lTokens[1:-1]:
-        if isinstance(oToken, parser.comment):
+        if isinstance(oToken, (parser.comment, parser.preprocessor)):
             return True
     return False
 
